@@ -2,6 +2,7 @@ package props
 
 import (
 	"fmt"
+	"sort"
 	"net/http"
 	"net/url"
 	"strings"
@@ -531,6 +532,109 @@ func EditPairs(tier string) []EditPair {
 	}
 	out = append(out, structuralEdits()...)
 	out = append(out, responseEdits()...)
+	return out
+}
+
+// EditPairsWithBystanders is the catalogue of C13: every pair, and every request-side pair once more with a
+// same-name bystander parameter.
+func EditPairsWithBystanders(tier string) []EditPair {
+	pairs := EditPairs(tier)
+	return append(pairs, withBystanders(pairs)...)
+}
+
+// withBystanders: every request-side pair whose edit sits in a non-body or body parameter is repeated with
+// an unchanged, optional "bystander" parameter of the SAME NAME in another location, present in both
+// documents (for a body parameter: a shared path-level query parameter of that name). The witness request
+// does not carry the bystander, so it stays a witness (machine-checked again by the check).
+func withBystanders(pairs []EditPair) []EditPair {
+	type key struct{ path, method, name, in string }
+	params := func(doc J) map[key]J {
+		out := map[key]J{}
+		paths, _ := doc["paths"].(J)
+		for pth, pi := range paths {
+			pij, _ := pi.(J)
+			for m, op := range pij {
+				opj, ok := op.(J)
+				if !ok || m == "parameters" {
+					continue
+				}
+				lists := []interface{}{opj["parameters"], pij["parameters"]}
+				for _, l := range lists {
+					ps, _ := l.(A)
+					for _, x := range ps {
+						if pj, ok := x.(J); ok {
+							n, _ := pj["name"].(string)
+							in, _ := pj["in"].(string)
+							k := key{pth, m, n, in}
+							if _, seen := out[k]; !seen {
+								out[k] = pj
+							}
+						}
+					}
+				}
+			}
+		}
+		return out
+	}
+	var out []EditPair
+	for _, ep := range pairs {
+		if ep.Witness == nil || ep.Response || ep.Neutral {
+			continue
+		}
+		po, pn := params(ep.Old), params(ep.New)
+		// the edited parameter: present with different content, or present on one side only
+		var edited *key
+		var keys []key
+		for k := range pn {
+			keys = append(keys, k)
+		}
+		for k := range po {
+			if _, ok := pn[k]; !ok {
+				keys = append(keys, k)
+			}
+		}
+		sort.Slice(keys, func(i, j int) bool { return fmt.Sprint(keys[i]) < fmt.Sprint(keys[j]) })
+		for _, k := range keys {
+			o, ok1 := po[k]
+			v, ok2 := pn[k]
+			if !ok1 || !ok2 || !jsonEqual(o, v) {
+				kk := k
+				edited = &kk
+				break
+			}
+		}
+		if edited == nil || edited.method != strings.ToLower(ep.Witness.Method) {
+			continue
+		}
+		by := J{"in": "header", "name": edited.name, "type": "string"}
+		if edited.in == "header" {
+			by["in"] = "query"
+		}
+		clash := false
+		for _, m := range []map[key]J{po, pn} {
+			if _, ok := m[key{edited.path, edited.method, edited.name, by["in"].(string)}]; ok {
+				clash = true
+			}
+		}
+		if clash {
+			continue
+		}
+		tw := EditPair{Name: ep.Name + " +same-name bystander", Kind: ep.Kind, Site: ep.Site + "+bystander", Old: cloneJ(ep.Old), New: cloneJ(ep.New), Witness: ep.Witness}
+		for _, d := range []J{tw.Old, tw.New} {
+			if edited.in == "body" {
+				by["in"] = "query"
+				pi := at(d, "paths", edited.path)
+				l, _ := pi["parameters"].(A)
+				pi["parameters"] = append(l, cloneJ(by))
+				continue
+			}
+			if _, ok := at(d, "paths", edited.path)[edited.method].(J); !ok {
+				continue
+			}
+			addParam(d, edited.path, edited.method, cloneJ(by))
+		}
+		out = append(out, tw)
+	}
 	return out
 }
 
